@@ -97,6 +97,7 @@ type incarnation struct {
 	lapsed        map[string]bool
 	droppedDelete map[string]bool
 	poolHandlerCalls int
+	staleDropped     map[string][]netip.Addr // service -> recorded addresses a handler call dropped because it was shown a stale object
 	gateOpened    bool // the initial-load gate of this incarnation has been open at some point
 }
 
@@ -552,9 +553,29 @@ func (w *world) serviceHandler(inc *incarnation, l log.Logger, name string, svc 
 		delete(inc.lastSeen, name)
 	}
 	w.sched.add("handler:svc:" + name)
+	// listed finding: the handler is shown an object OLDER than the status the API server has for
+	// the service (the cache lags behind the controller's own write) while memory agrees with the
+	// API server: "no status" then makes it drop the allocation
+	staleShown := false
+	if api := w.getSvc(name); svc != nil && api != nil && svc.ResourceVersion != api.ResourceVersion && len(statusAddrs(api)) > 0 &&
+		!addrsEq(statusAddrs(svc), statusAddrs(api)) && addrsEq(pre[name].IPs, statusAddrs(api)) {
+		staleShown = true
+	}
 	inc.curName, inc.curSeen, inc.curPre = name, svc, pre
 	res := inc.listener.ServiceHandler(l, name, svc, eps)
 	inc.curName, inc.curSeen, inc.curPre = "", nil, nil
+	if staleShown {
+		post := w.holdings(inc)
+		for _, a := range pre[name].IPs {
+			if !containsAddr(post[name].IPs, a) {
+				if inc.staleDropped == nil {
+					inc.staleDropped = map[string][]netip.Addr{}
+				}
+				inc.staleDropped[name] = append(inc.staleDropped[name], a)
+				w.stat("probe.stale-object-made-the-handler-drop-a-recorded-address")
+			}
+		}
+	}
 	w.logf("  SetBalancer(%s) -> %v holds=%v", name, syncName(res), inc.ctrl.ips.VerifHoldings()[name].IPs)
 	w.afterServiceHandler(inc, name, svc, prevSeen, pre, res)
 	return res
